@@ -277,7 +277,7 @@ def check_grid(ctx: Ctx):
         ok = {"0 <= nr", "nr < rows", "0 <= nc", "nc < cols", "cell not in blocked_set"} <= at and ast.unparse(y[0].value) == "((nr, nc), base)"
     ctx.ob("C11-O6", "R18 table", nb, "moves stay inside the grid and off blocked cells; the yielded cost is the (possibly scaled) cell cost", ok, "", node=nb.node)
     mod = ctx.repo.module("a_star")
-    src = mod.source
+    src = ast.unparse(mod.tree)
     ctx.ob("C11-O6", "R18 table", f, "octile heuristic = max + (sqrt2 - 1) * min; constants derive from sqrt(2)", "max(dr, dc) + _SQRT2_MINUS_1 * min(dr, dc)" in t and "_SQRT2 = sqrt(2)" in src and "_SQRT2_MINUS_1 = _SQRT2 - 1" in src, "", node=f.node)
     ctx.ob("C11-O6", "R18 table", f, "move sets: 8 directions without (0,0); 4 directions = axis moves", "if (dx, dy) != (0, 0)" in src and "if dx == 0 or dy == 0" in src and ast.unparse(ast.parse("dirs = _DIRS_8 if directions == 8 else _DIRS_4")) in t, "", node=f.node)
     hard = []
